@@ -191,7 +191,7 @@ theorem invx_atom (hW : WordSpecs P.C pb cb W) (hP : P.publishStore = false) (hX
               exact ⟨case_relS_cas_dec hW hI hi hloc hl hd, hxd _ rfl⟩
             · have hd' : decide (((a.cur - P.C.kSLock) &&& (P.C.kSMask ||| P.C.kSIXLock)) ≠ 0) = false := decide_eq_false hd
               simp only [hl, hd', Bool.false_eq_true, ↓reduceIte]
-              exact ⟨case_relS_cas_null hW hI hi hloc hl hd, hxd _ (by simp [cacheNode_agents])⟩
+              exact ⟨(case_relS_cas_null hW hI hi hloc hl hd).1, hxd _ (by simp [cacheNode_agents])⟩
           | SIX =>
             by_cases hd : (a.cur &&& P.C.kSMask) ≠ 0
             · have hd' : decide ((a.cur &&& P.C.kSMask) ≠ 0) = true := decide_eq_true hd
@@ -199,7 +199,7 @@ theorem invx_atom (hW : WordSpecs P.C pb cb W) (hP : P.publishStore = false) (hX
               exact ⟨case_rel_cas_dec hW hI hi .relSIX (Or.inr rfl) hloc hl hd, hxd _ rfl⟩
             · have hd' : decide ((a.cur &&& P.C.kSMask) ≠ 0) = false := decide_eq_false hd
               simp only [hl, hd', Bool.false_eq_true, ↓reduceIte]
-              exact ⟨case_rel_cas_null hW hI hi .relSIX hloc hl hd, hxd _ (by simp [cacheNode_agents])⟩
+              exact ⟨(case_rel_cas_null hW hI hi .relSIX hloc hl hd).1, hxd _ (by simp [cacheNode_agents])⟩
           | X =>
             by_cases hd : (a.cur &&& P.C.kSMask) ≠ 0
             · have hd' : decide ((a.cur &&& P.C.kSMask) ≠ 0) = true := decide_eq_true hd
@@ -207,7 +207,7 @@ theorem invx_atom (hW : WordSpecs P.C pb cb W) (hP : P.publishStore = false) (hX
               exact ⟨case_rel_cas_dec hW hI hi .relX (Or.inl rfl) hloc hl hd, hxd _ rfl⟩
             · have hd' : decide ((a.cur &&& P.C.kSMask) ≠ 0) = false := decide_eq_false hd
               simp only [hl, hd', Bool.false_eq_true, ↓reduceIte]
-              exact ⟨case_rel_cas_null hW hI hi .relX hloc hl hd, hxd _ (by simp [cacheNode_agents])⟩
+              exact ⟨(case_rel_cas_null hW hI hi .relX hloc hl hd).1, hxd _ (by simp [cacheNode_agents])⟩
         · simp only [hl, ↓reduceIte]
           cases m with
           | S => exact ⟨case_relS_lockLoad hW hI hi .cas (Or.inr rfl) hloc, hxm⟩
@@ -225,7 +225,7 @@ theorem invx_atom (hW : WordSpecs P.C pb cb W) (hP : P.publishStore = false) (hX
           by_cases hl : (rd s (.node (ptrOf P a.nxt)) &&& P.C.kLockMask) = P.C.kSLock
           · have hl' : decide ((rd s (.node (ptrOf P a.nxt)) &&& P.C.kLockMask) = P.C.kSLock) = true := decide_eq_true hl
             simp only [hl', ↓reduceIte]
-            exact ⟨case_relS_handoff_last hW hI hi hloc hl, hxd _ (by simp [cacheNode_agents, wr_node_agents])⟩
+            exact ⟨(case_relS_handoff_last hW hI hi hloc hl).1, hxd _ (by simp [cacheNode_agents, wr_node_agents])⟩
           · have hl' : decide ((rd s (.node (ptrOf P a.nxt)) &&& P.C.kLockMask) = P.C.kSLock) = false := decide_eq_false hl
             simp only [hl', Bool.false_eq_true, ↓reduceIte]
             exact ⟨case_relS_handoff_keep hW hI hi hloc hl, hxd _ (by simp [wr_node_agents])⟩
@@ -234,7 +234,7 @@ theorem invx_atom (hW : WordSpecs P.C pb cb W) (hP : P.publishStore = false) (hX
           by_cases hl : (rd s (.node (ptrOf P a.nxt)) &&& P.C.kSMask) = P.C.kNoLocks
           · have hl' : decide ((rd s (.node (ptrOf P a.nxt)) &&& P.C.kSMask) = P.C.kNoLocks) = true := decide_eq_true hl
             simp only [hl', ↓reduceIte]
-            exact ⟨case_rel_handoff_last hW hI hi .relSIX (Or.inr rfl) hloc hl,
+            exact ⟨(case_rel_handoff_last hW hI hi .relSIX (Or.inr rfl) hloc hl).1,
               hxd _ (by simp [cacheNode_agents, wr_node_agents])⟩
           · have hl' : decide ((rd s (.node (ptrOf P a.nxt)) &&& P.C.kSMask) = P.C.kNoLocks) = false := decide_eq_false hl
             simp only [hl', Bool.false_eq_true, ↓reduceIte]
@@ -244,7 +244,7 @@ theorem invx_atom (hW : WordSpecs P.C pb cb W) (hP : P.publishStore = false) (hX
           by_cases hl : (rd s (.node (ptrOf P a.nxt)) &&& P.C.kSMask) = P.C.kNoLocks
           · have hl' : decide ((rd s (.node (ptrOf P a.nxt)) &&& P.C.kSMask) = P.C.kNoLocks) = true := decide_eq_true hl
             simp only [hl', ↓reduceIte]
-            exact ⟨case_rel_handoff_last hW hI hi .relX (Or.inl rfl) hloc hl,
+            exact ⟨(case_rel_handoff_last hW hI hi .relX (Or.inl rfl) hloc hl).1,
               hxd _ (by simp [cacheNode_agents, wr_node_agents])⟩
           · have hl' : decide ((rd s (.node (ptrOf P a.nxt)) &&& P.C.kSMask) = P.C.kNoLocks) = false := decide_eq_false hl
             simp only [hl', Bool.false_eq_true, ↓reduceIte]
